@@ -168,7 +168,7 @@ func vhCodeStr(c int) string {
 	return string(rune('0'+c/100)) + string(rune('0'+(c/10)%10)) + string(rune('0'+c%10))
 }
 
-func vhC06Route(maxParams int, nValidators int, symbolicResponses bool) {
+func vhC06Route(maxParams int, nValidators int, symbolicResponses bool, allowClash bool) {
 	np := symxChoice("params.n", maxParams+1)
 	var ins []vhParamIn
 	route := definitions.RouteMetadata{OperationId: "op", HttpVerb: definitions.HttpGet, RestMetadata: definitions.RestMetadata{Path: "/r"}, ResponseDescription: "ok"}
@@ -226,7 +226,11 @@ func vhC06Route(maxParams int, nValidators int, symbolicResponses bool) {
 	route.ResponseSuccessCode = runtime.HttpStatusCode(success)
 	var errCodes []int
 	for i := 0; i < ne; i++ {
-		c := []int{400, 404}[symxChoice("err"+vhD(i), 2)]
+		nCodes := 2
+		if allowClash {
+			nCodes = 4 // an @ErrorResponse may reuse the success code: validation accepts it
+		}
+		c := []int{400, 404, 200, 204}[symxChoice("err"+vhD(i), nCodes)]
 		errCodes = append(errCodes, c)
 		route.ErrorResponses = append(route.ErrorResponses, definitions.ErrorResponse{HttpStatusCode: runtime.HttpStatusCode(c), Description: "e"})
 	}
@@ -320,6 +324,10 @@ func vhC06Route(maxParams int, nValidators int, symbolicResponses bool) {
 			}
 		}
 		for _, c := range errCodes {
+			if c == success {
+				symxCover("C11.error-code-equals-success-code")
+				continue // which of the two wins is not fixed by the contract; the two documents must agree (below)
+			}
 			er := vhRespFind(d.responses, vhCodeStr(c))
 			symxCover("C06.error-response")
 			symxAssert(er != nil && er.hasContent && er.contentRef == "#/components/schemas/"+wantErrName, "C06."+ver+".error-response-schema")
@@ -358,11 +366,15 @@ func vhC06Route(maxParams int, nValidators int, symbolicResponses bool) {
 	symxAssert(a.hasDefaultResponse == b.hasDefaultResponse, "C11.response-code-sets-agree")
 }
 
-func vh_C06_params_Q()    { vhC06Route(2, 4, false) }
-func vh_C06_responses_Q() { vhC06Route(0, 4, true) }
+func vh_C06_params_Q()    { vhC06Route(2, 4, false, false) }
+func vh_C06_responses_Q() { vhC06Route(0, 4, true, false) }
+
+// C11: the two documents agree on parameters, bodies and responses, also where an error response reuses the success code
+func vh_C11_operation_responses_Q() { vhC06Route(0, 4, true, true) }
+func vh_C11_operation_params_Q()    { vhC06Route(2, 2, false, false) }
 
 // C14: both emitters never panic on accepted routes and models
 func vh_C14_emitters_Q() {
 	symxAssertionsOff()
-	vhC06Route(2, 4, false)
+	vhC06Route(2, 4, false, false)
 }
